@@ -1078,6 +1078,185 @@ theorem C34_at_most_once (ops : List Op) (h : Nat) :
 example : (run State.init [.push 1 5, .push 2 7, .push 3 5, .push 1 9, .peek, .remove 3, .pop, .pop, .pop, .exist 3]).1 =
     [.ok, .ok, .ok, .dup, .tx 2, .ok, .tx 2, .tx 1, .none, .bool false] := by decide
 
+/-! ### conservation: no transaction is lost or duplicated -/
+
+/-- bookkeeping of what went in and what came out -/
+structure Ledger where
+  pushed : List Nat     -- hashes accepted by Push (result ok)
+  yielded : List Nat    -- hashes returned by Pop / PopWithTimer
+  removed : List Nat    -- hashes taken out by RemoveExtrinsic (only when they were queued)
+
+/-- `present`: for a RemoveExtrinsic, whether the hash was queued before the call -/
+def ledgerStep (present : Bool) (op : Op) (out : Out) (l : Ledger) : Ledger :=
+  match op, out with
+  | .push h _, .ok => { l with pushed := h :: l.pushed }
+  | .pop, .tx h => { l with yielded := h :: l.yielded }
+  | .remove h, _ => if present then { l with removed := h :: l.removed } else l
+  | _, _ => l
+
+def Op.hash : Op → Nat
+  | .push h _ => h | .remove h => h | .exist h => h | _ => 0
+
+/-- the ledger of a run of the implementation model -/
+def ledger (s : State) : List Op → Ledger → Ledger
+  | [], l => l
+  | op :: ops, l =>
+    let o := step s op
+    ledger o.2 ops (ledgerStep (s.txs.lookup op.hash).isSome op o.1 l)
+
+/-- everything accepted is either still queued, or was yielded, or was removed — as multisets -/
+def Bal (t : Spec) (l : Ledger) : Prop :=
+  l.pushed.Perm (t.items.map (·.hash) ++ (l.yielded ++ l.removed))
+
+theorem perm_insertSorted (x : SItem) (l : List SItem) : (insertSorted x l).Perm (x :: l) := by
+  induction l with
+  | nil => exact List.Perm.refl _
+  | cons y ys ih =>
+    unfold insertSorted
+    split
+    · exact List.Perm.refl _
+    · exact (List.Perm.cons y ih).trans (List.Perm.swap x y ys)
+
+theorem perm_filter_remove {α : Type} (p : α → Bool) (x : α) : ∀ (l : List α), l.Nodup → x ∈ l →
+    (∀ y ∈ l, p y = false ↔ y = x) → l.Perm (x :: l.filter p) := by
+  intro l
+  induction l with
+  | nil => intro _ h; cases h
+  | cons z zs ih =>
+    intro hn hx hp
+    rw [List.nodup_cons] at hn
+    by_cases hz : z = x
+    · subst hz
+      have h1 : p z = false := (hp z List.mem_cons_self).mpr rfl
+      have h2 : zs.filter p = zs := by
+        rw [List.filter_eq_self]
+        intro a ha
+        cases hpa : p a with
+        | true => rfl
+        | false =>
+          have := (hp a (List.mem_cons_of_mem _ ha)).mp hpa
+          subst this
+          exact absurd ha hn.1
+      simp [List.filter_cons, h1, h2]
+    · have hx' : x ∈ zs := by
+        rcases List.mem_cons.mp hx with h | h
+        · exact absurd h.symm hz
+        · exact h
+      have h1 : p z = true := by
+        cases hpz : p z with
+        | true => rfl
+        | false => exact absurd ((hp z List.mem_cons_self).mp hpz) hz
+      have := ih hn.2 hx' (fun y hy => hp y (List.mem_cons_of_mem _ hy))
+      simp only [List.filter_cons, h1, if_true]
+      exact (List.Perm.cons z this).trans (List.Perm.swap x z _)
+
+theorem bal_step {s : State} {t : Spec} (hR : Rel s t) {l : Ledger} (hB : Bal t l) (op : Op) :
+    Bal (sstep t op).2 (ledgerStep (s.txs.lookup op.hash).isSome op (step s op).1 l) := by
+  cases op with
+  | push h p =>
+    have ho : (step s (.push h p)).1 = (sstep t (.push h p)).1 := (push_rel hR h p).1
+    rw [ho]
+    simp only [sstep]
+    split
+    · exact hB
+    · show List.Perm (h :: l.pushed) _
+      have h1 := (perm_insertSorted { hash := h, priority := p, order := t.next } t.items).map (·.hash)
+      exact (List.Perm.cons h hB).trans ((List.Perm.append_right _ h1).symm)
+  | pop =>
+    have ho : (step s .pop).1 = (sstep t .pop).1 := (pop_rel hR).1
+    rw [ho]
+    cases hit : t.items with
+    | nil =>
+      have hs : sstep t .pop = (.none, t) := by simp only [sstep, hit]
+      rw [hs]; exact hB
+    | cons x r =>
+      have hs : sstep t .pop = (.tx x.hash, { t with items := r }) := by simp only [sstep, hit]
+      rw [hs]
+      show List.Perm l.pushed (r.map (·.hash) ++ (x.hash :: (l.yielded ++ l.removed)))
+      have hB' : l.pushed.Perm (x.hash :: (r.map (·.hash) ++ (l.yielded ++ l.removed))) := by
+        unfold Bal at hB; rw [hit] at hB; simpa using hB
+      exact hB'.trans (List.perm_middle (a := x.hash) (l₁ := r.map (·.hash))
+        (l₂ := l.yielded ++ l.removed)).symm
+  | remove h =>
+    have hany := any_hash_iff hR h
+    show Bal { t with items := t.items.filter (·.hash != h) }
+      (if (s.txs.lookup h).isSome then { l with removed := h :: l.removed } else l)
+    rw [← hany]
+    cases ha : t.items.any (·.hash == h) with
+    | false =>
+      simp only [Bool.false_eq_true, if_false]
+      rw [List.any_eq_false] at ha
+      have hf : t.items.filter (·.hash != h) = t.items := by
+        rw [List.filter_eq_self]
+        intro a haa
+        have := ha a haa
+        simpa using this
+      unfold Bal; rw [hf]; exact hB
+    | true =>
+      simp only [if_true]
+      rw [List.any_eq_true] at ha
+      obtain ⟨x, hx, hxh⟩ := ha
+      have hxh' : x.hash = h := by simpa using hxh
+      have hchar : ∀ y ∈ t.items, (y.hash != h) = false ↔ y = x := by
+        intro y hy
+        constructor
+        · intro hh
+          exact hR.hashInj y hy x hx (by rw [hxh']; simpa using hh)
+        · intro hh; rw [hh, hxh']; simp
+      have hp := (perm_filter_remove (fun y : SItem => y.hash != h) x t.items
+        (sorted_nodup hR.sorted) hx hchar).map (·.hash)
+      rw [List.map_cons, hxh'] at hp
+      unfold Bal at hB ⊢
+      show List.Perm l.pushed ((t.items.filter (·.hash != h)).map (·.hash) ++ (l.yielded ++ h :: l.removed))
+      have h2 : List.Perm (t.items.map (·.hash) ++ (l.yielded ++ l.removed))
+          (h :: ((t.items.filter (·.hash != h)).map (·.hash) ++ (l.yielded ++ l.removed))) :=
+        List.Perm.append_right _ hp
+      have h3 : List.Perm ((t.items.filter (·.hash != h)).map (·.hash) ++ (l.yielded ++ h :: l.removed))
+          (h :: ((t.items.filter (·.hash != h)).map (·.hash) ++ (l.yielded ++ l.removed))) := by
+        rw [← List.append_assoc, ← List.append_assoc]
+        exact List.perm_middle
+      exact (hB.trans h2).trans h3.symm
+  | peek =>
+    have h2 : (sstep t .peek).2 = t := by simp only [sstep]; split <;> rfl
+    rw [h2]
+    have : ledgerStep (s.txs.lookup Op.peek.hash).isSome .peek (step s .peek).1 l = l := by
+      unfold ledgerStep; split <;> first | rfl | contradiction
+    rw [this]; exact hB
+  | exist h => exact hB
+  | pending => exact hB
+  | len => exact hB
+
+theorem bal_run (ops : List Op) : ∀ {s : State} {t : Spec} {l : Ledger}, Rel s t → Bal t l →
+    Bal (srun t ops).2 (ledger s ops l) := by
+  induction ops with
+  | nil => intro s t l _ hB; exact hB
+  | cons op ops ih =>
+    intro s t l hR hB
+    exact ih (step_rel hR op).2 (bal_step hR hB op)
+
+/-- **C34_conservation.**  For every operation sequence on a fresh queue: the transactions
+    accepted by Push are, as a multiset, exactly those yielded by Pop/PopWithTimer plus those
+    taken out by RemoveExtrinsic plus those still in the queue.  Nothing is lost, nothing is
+    yielded twice. -/
+theorem C34_conservation (ops : List Op) :
+    let l := ledger State.init ops ⟨[], [], []⟩
+    l.pushed.Perm ((reach ops).pq.toList.map (·.hash) ++ (l.yielded ++ l.removed)) := by
+  intro l
+  have hR := (C34_refines ops).2
+  have hB : Bal (srun Spec.init ops).2 l :=
+    bal_run ops rel_init (by simp [Bal, Spec.init])
+  exact hB.trans (List.Perm.append_right _ (pending_rel hR).symm)
+
+/-- **C34_nil_takes_nothing.**  A Pop (and PopWithTimer, which is Pop or a time-out) that
+    returns nil has not changed the queue: it can report "nothing" only when nothing was taken. -/
+theorem C34_nil_takes_nothing (s : State) (h : (pop s).1 = .none) : (pop s).2 = s := by
+  unfold pop at h ⊢
+  split
+  · rfl
+  · rename_i hne
+    rw [if_neg hne] at h
+    cases h
+
 /-! ### concurrent part: lock tables + monitor theorem -/
 
 def tablePQ : List Monitor.Method := (Monitor.ofTriples lockTablePQ).getD []
